@@ -595,9 +595,24 @@ def f6_increase_corrections(ctx) -> None:
                         good = True
             if not C.guards(f, c):
                 good = True
-        if good:
+        # ... and under nothing else: the gap moves whenever the histogram says so, whether or not a rule is waiting behind it
+        base = {(norm(t), pol) for t, pol in C.flatten_guards(C.guards(f, inc))}
+        extra = []
+        for c in cg:
+            for t, pol in C.flatten_guards(C.guards(f, c)):
+                if (norm(t), pol) in base:
+                    continue
+                if isinstance(t, ast.Compare) and len(t.ops) == 1 and isinstance(t.ops[0], (ast.NotEq, ast.Eq)) \
+                        and {norm(_value_of(f, t.left)), norm(_value_of(f, t.comparators[0]))} == {"self._current_gap[0]", "self._function.preimage_gap(self._gap_size)"}:
+                    continue
+                extra.append(t)
+        if good and extra:
+            good = False
+            ctx.violation("F6", cg[0], f"the gap is re-examined only under `{norm(extra[0])[:60]}`: the gap moves whenever the histogram changes; left where it was, later "
+                          "increases are judged against a stale gap and classes are frozen (declared pumping) that can still be bounded")
+        elif good:
             ctx.ok("F6", "the gap is recomputed after the histogram changed (when its start moved)")
-        else:
+        elif not extra:
             ctx.violation("F6", cg[0], "_correct_gap() after an increase must run whenever preimage_gap(self._gap_size) differs from the current gap start")
     else:
         ctx.violation("F6", inc, "after f changes the gap must be re-examined (_correct_gap() when preimage_gap(_gap_size) moved): held-back rules are released only there")
